@@ -13,3 +13,4 @@ pub mod run;
 pub mod sio;
 pub mod specpred;
 pub mod tape;
+pub mod walk;
